@@ -116,6 +116,61 @@ def _is_true(v):
     return v[0] == 'const' and v[1] == 'int' and str(v[2]) in ('1', 'true')
 
 
+def _inline_let(body, dn, v, use_bb, depth=0):
+    """`let t = <expr>; .. t ..` IS `.. <expr> ..`: a named local with exactly ONE definition in the whole body (a `let`
+    without reassignment, never borrowed mutably) that dominates the use is replaced by its defining expression (named
+    operands kept), provided none of that expression's own named operands can be reassigned between the binding and
+    the use (the binding would be stale).  Anything else is returned unchanged."""
+    if not (isinstance(v, tuple) and v[0] == 'local' and v[2]) or depth > 3:
+        return v
+    n = v[1]
+    defs = body.defs_of(n)
+    if len(defs) != 1 or defs[0][0] != 'stmt' or n in dn.mut_borrowed:
+        return v
+    _, dbb, didx, rv = defs[0]
+    if not body.dominates(dbb, use_bb):
+        return v
+    e = dn.rvalue(rv, dbb, didx, 0)
+    if e == v:
+        return v
+    after = body.reachable_strict(dbb, avoid=[dbb])
+    for x in D.walk(e):
+        if x[0] == 'param' and (x[1] in dn.mut_borrowed or any(df[0] != 'arg' for df in body.defs_of(x[1]))):
+            return v
+        if x[0] != 'local':
+            continue
+        if x[1] in dn.mut_borrowed:
+            return v
+        for df in body.defs_of(x[1]):
+            if df[0] == 'arg':
+                continue
+            xbb = df[1]
+            at = df[2] if df[0] in ('stmt', 'field', 'sd') else len(body.blocks[xbb]['s'])
+            if xbb == dbb:
+                if at > didx:
+                    return v
+                continue
+            if xbb in after and use_bb in body.reachable_from(xbb, avoid=[dbb]):
+                return v
+    return _inline_let(body, dn, e, use_bb, depth + 1)
+
+
+def _guard_edges_inlined(ctx, body, relpred):
+    """guard_edges(.., stop_named=True) with `let` temporaries on either side of the comparison replaced by their defining
+    expression (see _inline_let); literal offsets on an operand still disqualify the relation"""
+    dn = describer(ctx.facts, body, stop_named=True)
+    out = []
+    for br in branches(ctx.facts, body, True):
+        for truth in (True, False):
+            rel = relation_on(br.desc, truth)
+            if rel is None:
+                continue
+            a, b = _inline_let(body, dn, rel[1], br.bb), _inline_let(body, dn, rel[2], br.bb)
+            if relpred(rel[0], a, b) and not (D.const_offsets(a) | D.const_offsets(b)):
+                out.append((br, truth, br.target(1 if truth else 0)))
+    return out
+
+
 def rule_a(ctx):
     F = ctx.facts
     pt = ctx.pfn('Connection::poll_transmit')
@@ -217,7 +272,7 @@ def rule_a(ctx):
     okf = True
     nf = 0
     for c in fin:
-        es = guard_edges(ctx, pt, lambda o, a, b: o in ('Le', 'Lt') and 'buf_capacity' in D.render(a) + D.render(b) and 'segment_size' in D.render(a) + D.render(b) and 'datagram_start' in D.render(a) + D.render(b), stop_named=True)
+        es = _guard_edges_inlined(ctx, pt, lambda o, a, b: o in ('Le', 'Lt') and 'buf_capacity' in D.render(a) + D.render(b) and 'segment_size' in D.render(a) + D.render(b) and 'datagram_start' in D.render(a) + D.render(b))
         cov = any(pt.dominates(br.bb, c.bb) for br, truth, tgt in es)
         if not cov:
             okf = False
@@ -240,6 +295,95 @@ def _none_edges(F, body, is_place):
     return out
 
 
+def _est_edges(ctx, body, own_state=False):
+    """{block: [Branch, true target, false target]} of the branches whose condition IS <..>.state.is_established()
+    (own_state: of the receiver parameter itself)"""
+    est = {}
+    for br, truth, tgt in bool_edges(ctx, body, lambda x: _is_call(x, 'State::is_established') and len(x[3]) == 1 and _is_field(x[3][0], 'state')
+                                     and (not own_state or (x[3][0][1][0] == 'param' and x[3][0][1][1] == 1))):
+        est.setdefault(br.bb, [br, None, None])[1 if truth else 2] = tgt
+    return est
+
+
+def _bool_needs_est(ctx, body, est, o, bb, idx, want, depth=0):
+    """The bool operand `o` read at (bb, idx) can have the value `want` only if the last evaluation of is_established()
+    before the read returned true.  Every definition reaching the read is one of
+      * the constant `!want` (that definition never yields `want`: `let ok = est() && ..` stores `false` on the false edge);
+      * a copy of / `!` of another operand of which the same holds (for `!want` under a `!`);
+      * any value computed in a block that is only reachable over the true edge of an is_established() branch, when the read
+        cannot be reached from that branch's false edge without passing the branch or a definition of the local again;
+      * the result of a `&self` helper called on the same receiver, every return value of which satisfies this very
+        condition inside the helper (`fn may_probe(&self) -> bool { self.state.is_established() && .. }`)."""
+    F = ctx.facts
+    d = describer(F, body)
+    if depth > 6:
+        return False
+    if o[0] not in ('c', 'm'):
+        v = d.operand(o, bb, idx)
+        return v[0] == 'const' and v[1] == 'int' and str(v[2]) in ('0', '1', 'true', 'false') and _is_true(v) != want
+    local, proj = o[1]
+    if proj:
+        return False
+    defs = d.reaching_defs(local, bb, idx)
+    if not defs:
+        return False
+    redef = set()
+    for df in body.defs_of(local):
+        if df[0] == 'arg':
+            return False
+        at = df[2] if df[0] in ('stmt', 'field', 'sd') else len(body.blocks[df[1]]['s'])
+        if not (df[1] == bb and at >= idx):
+            redef.add(df[1])
+
+    def under(dbb):
+        for br, t, f in est.values():
+            if t is not None and f is not None and _only_over_edge(body, br, t, f, dbb) and bb not in body.reachable_from(f, avoid=redef | {br.bb}):
+                return True
+        return False
+    for df in defs:
+        if df[0] == 'stmt':
+            rv = df[3]
+            if rv[0] in ('use', 'cast') and _bool_needs_est(ctx, body, est, rv[-1], df[1], df[2], want, depth + 1):
+                continue
+            if rv[0] == 'un' and rv[1] == 'Not' and _bool_needs_est(ctx, body, est, rv[2], df[1], df[2], not want, depth + 1):
+                continue
+            if under(df[1]):
+                continue
+            return False
+        elif df[0] == 'call':
+            if under(df[1]):
+                continue
+            c = df[2]
+            cal = F.bodies.get(c.f) if c.k == 'item' else None
+            if cal is None or cal.kind != 'fn' or not c.args or cal.argc < 1:
+                return False
+            ty = str(cal.locals[1][0])
+            recv = arg_desc(F, c, 0)
+            if not (ty.startswith('&') and not ty.startswith('&mut') and recv[0] == 'param' and recv[1] == 1 and body.kind == 'fn' and cal.self_ty == body.self_ty):
+                return False
+            cest = _est_edges(ctx, cal, own_state=True)
+            rets = [r for r in cal.return_blocks() if r in cal.live_blocks()]
+            if not (cest and rets and all(_bool_needs_est(ctx, cal, cest, ['c', [0, []]], r, term_idx(cal, r), want, depth + 1) for r in rets)):
+                return False
+        else:
+            return False
+    return True
+
+
+def _site_behind_est_flag(ctx, body, est, site):
+    """site is reachable only over the edge of a bool branch whose discriminant can have that edge's value only after
+    is_established() returned true (the test was hoisted into a named bool or a one-level `&self` helper)"""
+    for br in branches(ctx.facts, body):
+        t = body.blocks[br.bb]['t']
+        if len(br.edges) != 2:
+            continue
+        for want in (True, False):
+            good, other = br.target(1 if want else 0), br.target(0 if want else 1)
+            if _only_over_edge(body, br, good, other, site) and _bool_needs_est(ctx, body, est, t[1], br.bb, term_idx(body, br.bb), want):
+                return True
+    return False
+
+
 def rule_b(ctx):
     F = ctx.facts
     pt = ctx.pfn('Connection::poll_transmit')
@@ -252,11 +396,10 @@ def rule_b(ctx):
     ctx.check(len(pads) == 1, 'b', 'probe_padded_to_probe_size', pt, pt.where(), 'pad_to(probe_size)', 'the MTU probe is not padded to the size chosen by MtuDiscovery')
     # probe only when nothing else was written and established
     # the probe site is reachable only over the TRUE edge of a branch whose condition IS state.is_established()
-    est = {}
-    for br, truth, tgt in bool_edges(ctx, pt, lambda x: _is_call(x, 'State::is_established') and len(x[3]) == 1 and _is_field(x[3][0], 'state')):
-        est.setdefault(br.bb, [br, None, None])[1 if truth else 2] = tgt
+    # -- or over the edge of a bool (named local / `&self` helper result) that can only have that value after is_established()
+    est = _est_edges(ctx, pt)
     for m in mp:
-        ok = any(_only_over_edge(pt, br, t, f, m.bb) for br, t, f in est.values())
+        ok = any(_only_over_edge(pt, br, t, f, m.bb) for br, t, f in est.values()) or _site_behind_est_flag(ctx, pt, est, m.bb)
         ctx.check(ok, 'b', 'probe_only_when_established', pt, m.where(), 'probe only over the true edge of is_established()', 'MTU probes can be sent before the handshake completes')
     # one probe in flight: every `in_flight_probe = Some(..)` of MtuDiscovery's poll_transmit is reachable only over the
     # None edge of a test of in_flight_probe (is_some / is_none / discriminant)
@@ -636,6 +779,27 @@ def _disabled_path_applies_known_limit(ctx):
     ctx.floor('d', 'disabled_mtud_sites_in_new_path', len(sites), 1)
 
 
+def _guarded_lowering_store(ctx, op, w, v):
+    """`if peer < self.current_mtu { self.current_mtu = peer }` IS `self.current_mtu = self.current_mtu.min(peer)`: the value
+    stored IS the announced limit (the parameter itself, nothing added), the store is reachable only over the edge of a branch
+    on which `peer < self.current_mtu` (or `<=`) holds, every path from that edge to a return passes the store, and the
+    comparison is evaluated on every path through the function (it dominates every return)"""
+    if w.body is not op or not (v[0] == 'param' and v[1] == 2):
+        return False
+
+    def cur(x):
+        return _is_field(x, 'current_mtu') and x[1][0] == 'param' and x[1][1] == 1
+    for br, truth, tgt in guard_edges(ctx, op, lambda o, a, b: o in ('Lt', 'Le') and a == v and cur(b)):
+        other = br.target(0 if truth else 1)
+        if not _only_over_edge(op, br, tgt, other, w.bb):
+            continue
+        if path_avoiding(op, [tgt], op.return_blocks(), [w.bb]) is not None:
+            continue
+        if all(op.dominates(br.bb, rb) for rb in op.return_blocks()):
+            return True
+    return False
+
+
 def rule_d(ctx):
     F = ctx.facts
     allowed = {'MtuDiscovery::on_acked': 'probe acked', 'MtuDiscovery::black_hole_detected': 'min_mtu', 'MtuDiscovery::on_peer_max_udp_payload_size_received': 'min(old, peer)',
@@ -653,6 +817,7 @@ def rule_d(ctx):
             ctx.check(D.has_field(v, 'min_mtu'), 'd', 'black_hole_falls_back_to_min_mtu', r, w.where(), D.render(v), 'black hole fallback is not min_mtu')
         elif r.short == 'MtuDiscovery::on_peer_max_udp_payload_size_received':
             ok = v[0] == 'call' and v[1].endswith('::min') and D.has_field(v, 'current_mtu') and D.has_param(v, name='peer_max_udp_payload_size')
+            ok = ok or _guarded_lowering_store(ctx, r, w, v)
             ctx.check(ok, 'd', 'peer_limit_only_lowers_mtu', r, w.where(), D.render(v), 'peer limit handling no longer min(current, peer)')
         elif r.short == 'MtuDiscovery::reset':
             _reset_store_clamped(ctx, r, w, v)
@@ -783,6 +948,58 @@ def _varint_value(v):
     return v
 
 
+def _slice_len(v):
+    """`x[..e].len()` / `x[0..e].len()` IS e (the indexing panics unless e <= x.len())"""
+    if isinstance(v, tuple) and v[0] == 'call' and v[1].rsplit('::', 1)[-1] == 'len' and len(v[3]) == 1:
+        a = v[3][0]
+        if a[0] == 'call' and a[1].endswith('Index>::index') and len(a[3]) == 2:
+            r = a[3][1]
+            if r[0] == 'agg' and r[2].endswith('RangeTo::RangeTo') and len(r[3]) == 1:
+                return _peel_conv(r[3][0])
+            if r[0] == 'agg' and r[2].endswith('Range::Range') and len(r[3]) == 2 and r[3][0][0] == 'const' and r[3][0][1] == 'int' and str(r[3][0][2]) == '0':
+                return _peel_conv(r[3][1])
+    return v
+
+
+def _select_min(F, b, v):
+    """`if x < y { x } else { y }` (any of < <= > >=, either operand order, negated or not) IS `x.min(y)`: a two-way phi
+    {X, Y} is rewritten to min(X, Y) when it is the value of a local with exactly two whole-local stores, X and Y, and a
+    branch comparing exactly X with Y sends the edge on which X <= Y holds only to the store of X and the other edge only
+    to the store of Y.  Every local with that pair of stores must pass (a `max` of the same pair anywhere keeps the phi)."""
+    if not (isinstance(v, tuple) and v[0] == 'phi' and len(v[1]) == 2):
+        return v
+    X, Y = _nosite(v[1][0]), _nosite(v[1][1])
+    d = describer(F, b)
+    live = b.live_blocks()
+    found = 0
+    for l in range(len(b.locals)):
+        defs = [df for df in b.defs_of(l) if df[0] == 'arg' or df[1] in live]
+        if len(defs) != 2 or any(df[0] != 'stmt' for df in defs):
+            continue
+        vals = [_nosite(_peel_conv(d.rvalue(df[3], df[1], df[2], 0))) for df in defs]
+        if sorted(vals, key=repr) != sorted([X, Y], key=repr) or X == Y:
+            continue
+        blk = {vals[0]: defs[0][1], vals[1]: defs[1][1]}
+        ok = False
+        for br in branches(F, b):
+            for truth in (True, False):
+                rel = relation_on(br.desc, truth)
+                if rel is None or rel[0] not in ('Lt', 'Le'):
+                    continue
+                p, q = _nosite(_peel_conv(rel[1])), _nosite(_peel_conv(rel[2]))
+                if {p, q} != {X, Y}:
+                    continue
+                tgt, other = br.target(1 if truth else 0), br.target(0 if truth else 1)
+                if _only_over_edge(b, br, tgt, other, blk[p]) and _only_over_edge(b, br, other, tgt, blk[q]):
+                    ok = True
+        if not ok:
+            return v
+        found += 1
+    if not found:
+        return v
+    return ('call', 'cmp::min', 'core::cmp::min', (v[1][0], v[1][1]), -1)
+
+
 def _varint_len(n):
     return 1 if n < 1 << 6 else 2 if n < 1 << 14 else 4 if n < 1 << 30 else 8
 
@@ -852,7 +1069,7 @@ def _close_reason_budget(ctx, b):
         ctx.bad('f', inst + '/anchor', b, b.where(), 'expected exactly one `out.put_slice(&self.<reason>[..n])`, found %d' % len(reason))
         return
     rc, n = reason[0]
-    n = _peel_conv(n)
+    n = _select_min(F, b, _peel_conv(n))
     others = [c for c in sinks if c is not rc]
     why = []
     if any(c.bb in b.reachable_strict(c.bb) for c in sinks):
@@ -872,7 +1089,7 @@ def _close_reason_budget(ctx, b):
         elif cls[0] == 'fixed':
             writes.append((c, cls[1], None))
         else:
-            v = _varint_value(arg_desc(F, c, 1))
+            v = _select_min(F, b, _slice_len(_varint_value(arg_desc(F, c, 1))))
             k = _const_value(F, v)
             writes.append((c, 8 if k is None else _varint_len(k), None if k is not None else v))
     verdicts = []
